@@ -7,19 +7,20 @@ import (
 	"verifharness/kit"
 )
 
-const rule = "sampler: random sampler settings (NumSamples 1-64, MinSamples, MaxStddev, OversaturatedStddevs, custom Convergence, Cutoff, MaxDepth, Antialias), image sizes 1x1..17x9 chosen below / equal to / above the worker count (runtime.NumCPU, fixed per process) and GOMAXPROCS in {1,2,5,16}, against a recording scene; closed forms: emitter enclosures (sphere, box, inward mesh, furnace walls, matte ball inside), matte parallelogram + ball under 1-2 point lights, all optionally wrapped in similarity transforms, BVH or joined; cameras: random frames, |fov| 0.02-3.1, negative fov, near-vertical look-at, auto-framing of boxes with aspect up to 100; objects: 1-7 primitives joined / BVH / filtered / nested, spheres and boxes under 1-3 Translate/Rotate/Scale/MatrixMultiply steps. Non-trivial: a convergence rule that actually stopped a pixel early (measured from the recorded counts) or a pixel count different from the worker count; a lit pixel / a visible ball / a furnace / a transformed scene; a non-square image; a field of view away from the helper default; a ray through several parts; a hit on a transformed object. Distinct: hash of the JSON case."
+const rule = "sampler: random sampler settings (NumSamples 1-64, MinSamples, MaxStddev, OversaturatedStddevs, custom Convergence, Cutoff, MaxDepth, Antialias), image sizes 1x1..17x9 chosen below / equal to / above the worker count (runtime.NumCPU, fixed per process) and GOMAXPROCS in {1,2,5,16}, against a recording scene; the same in child processes restricted with taskset to 1, 2 or 5 CPUs (= worker count) with pixel counts below / equal to / a multiple of / above that count; closed forms: emitter enclosures (sphere, box, inward mesh, furnace walls, matte ball inside), matte parallelogram + ball under 1-2 point lights, all optionally wrapped in similarity transforms, BVH or joined; cameras: random frames, |fov| 0.02-3.1, negative fov, near-vertical look-at, auto-framing of boxes with aspect up to 100; objects: 1-7 primitives joined / BVH / filtered / nested, spheres and boxes under 1-3 Translate/Rotate/Scale/MatrixMultiply steps. Non-trivial: a convergence rule that actually stopped a pixel early (measured from the recorded counts) or a pixel count different from the worker count; a lit pixel / a visible ball / a furnace / a transformed scene; a non-square image; a field of view away from the helper default; a ray through several parts; a hit on a transformed object. Distinct: hash of the JSON case."
 
 func TestProp(t *testing.T) {
 	runtime.GOMAXPROCS(2)
 	kit.Run(t, "C20", rule,
-		kit.Clause[samplerCase]{Name: "C20/sampler/mean-of-recorded", Quick: 2400, Thorough: 60000, Gen: genSampler, Check: checkSampler, Fresh: true},
-		kit.Clause[emitCase]{Name: "C20/closed/emitter", Quick: 700, Thorough: 16000, Gen: genEmit, Check: checkEmit, Fresh: true},
-		kit.Clause[bidirCase]{Name: "C20/closed/bidir-furnace", Quick: 64, Thorough: 1200, Gen: genBidir, Check: checkBidir, Fresh: true},
-		kit.Clause[matteCase]{Name: "C20/closed/matte", Quick: 1200, Thorough: 30000, Gen: genMatte, Check: checkMatte, Fresh: true},
-		kit.Clause[roundtripCase]{Name: "C20/camera/roundtrip", Quick: 3000, Thorough: 80000, Gen: genRoundtrip, Check: checkRoundtrip},
-		kit.Clause[lookAtCase]{Name: "C20/camera/look-at", Quick: 3000, Thorough: 80000, Gen: genLookAt, Check: checkLookAt},
-		kit.Clause[dirCamCase]{Name: "C20/camera/directional", Quick: 3000, Thorough: 80000, Gen: genDirCam, Check: checkDirCam},
-		kit.Clause[nearestCase]{Name: "C20/object/nearest-part", Quick: 1500, Thorough: 40000, Gen: genNearest, Check: checkNearest},
-		kit.Clause[xfObjCase]{Name: "C20/object/transformed", Quick: 2500, Thorough: 60000, Gen: genXfObj, Check: checkXfObj},
+		kit.Clause[samplerCase]{Name: "C20/sampler/mean-of-recorded", Quick: 6000, Thorough: 60000, Gen: genSampler, Check: checkSampler, Fresh: true},
+		kit.Clause[workersCase]{Name: workersClause, Quick: 480, Thorough: 8000, Gen: genWorkers, Check: checkWorkers},
+		kit.Clause[emitCase]{Name: "C20/closed/emitter", Quick: 2000, Thorough: 16000, Gen: genEmit, Check: checkEmit, Fresh: true},
+		kit.Clause[bidirCase]{Name: "C20/closed/bidir-furnace", Quick: 96, Thorough: 1200, Gen: genBidir, Check: checkBidir, Fresh: true},
+		kit.Clause[matteCase]{Name: "C20/closed/matte", Quick: 3000, Thorough: 30000, Gen: genMatte, Check: checkMatte, Fresh: true},
+		kit.Clause[roundtripCase]{Name: "C20/camera/roundtrip", Quick: 8000, Thorough: 80000, Gen: genRoundtrip, Check: checkRoundtrip},
+		kit.Clause[lookAtCase]{Name: "C20/camera/look-at", Quick: 6000, Thorough: 80000, Gen: genLookAt, Check: checkLookAt},
+		kit.Clause[dirCamCase]{Name: "C20/camera/directional", Quick: 8000, Thorough: 80000, Gen: genDirCam, Check: checkDirCam},
+		kit.Clause[nearestCase]{Name: "C20/object/nearest-part", Quick: 4000, Thorough: 40000, Gen: genNearest, Check: checkNearest},
+		kit.Clause[xfObjCase]{Name: "C20/object/transformed", Quick: 6000, Thorough: 60000, Gen: genXfObj, Check: checkXfObj},
 	)
 }
